@@ -176,6 +176,9 @@ def param_unit(form, entry, iters=2):
                     m.parameters = {"b": (distn.rgamma, (shape, rate)), "g": g}
                 elif form == "tuple_kwargs":
                     m.parameters = {"b": (distn.rgamma, {"shape": shape, "rate": rate}), "g": g}
+                elif form == "tuple_normal":
+                    # a prior with mass on both sides of zero: the drawn value may have either sign
+                    m.parameters = {"b": (distn.rnorm, (shape, rate)), "g": g}
                 elif form == "frozen_then_constant":
                     pass       # configured once, before the first seeded run (see below)
                 else:
@@ -240,7 +243,8 @@ class C16(Check):
               param_unit("tuple_kwargs", "simulate_param"), param_unit("frozen", "simulate_param"),
               param_unit("frozen_then_constant", "solve_determ"),
               # a PRIME iteration count: any block-wise / chunked averaging with block size < 101 shows
-              param_unit("tuple", "simulate_param", iters=101), param_unit("frozen", "solve_determ", iters=3)]
+              param_unit("tuple", "simulate_param", iters=101), param_unit("frozen", "solve_determ", iters=3),
+              param_unit("tuple_normal", "solve_determ"), param_unit("tuple_normal", "simulate_param", iters=3)]
         if tier != "quick":
             us += [stochast_unit(specs["shape_2x2"], True, 4), stochast_unit(specs["shape_2x2"], False, 3),
                    stochast_unit(expr.by_name("sir"), True, 4), stochast_unit(specs["shape_3x3"], True, 3),
